@@ -13,8 +13,8 @@ Definition gvar := (node * list node)%type.
 Definition conflicts (g : dsg) (W : list node) (o : node) : bool :=
   existsb (fun p => ((fst p =? o) && memN (snd p) W) || ((snd p =? o) && memN (fst p) W)) (incompat g).
 (* ... and so is every node that necessarily derives such a node (get_incompatibility_deriving_nodes): a node with a derivation
-   edge to a doomed node, and a selection choice all of whose options are doomed. Least fixpoint, reached within |nodes|
-   rounds since every round but the last adds a node. *)
+   edge to a doomed node, and a selection choice all of whose options are doomed. Least fixpoint (per incompatible target,
+   see doomed), reached within |nodes| rounds since every round but the last adds a node. *)
 Definition d_succ (g : dsg) (m : node) : list node :=
   map e_tgt (filter (fun e => (e_src e =? m) && ekind_eqb (e_kind e) Derives) (edges g)).
 Definition doom_step (g : dsg) (D : list node) : list node :=
@@ -28,8 +28,10 @@ Fixpoint doom_iter (g : dsg) (fuel : nat) (D : list node) : list node :=
   | O => D
   | S f => match doom_step g D with [] => D | new => doom_iter g f (D ++ new) end
   end.
+(* per conflicting node: get_mod_nodes_remove_incompatibilities walks upstream from each incompatible target on its own, so a
+   choice counts as exhausted only when all its options fall to the same target *)
 Definition doomed (g : dsg) (W : list node) : list node :=
-  doom_iter g (length (nodes g)) (filter (conflicts g W) (map fst (nodes g))).
+  flat_map (fun t => doom_iter g (length (nodes g)) [t]) (filter (conflicts g W) (map fst (nodes g))).
 (* rem: the options the choice constraints have removed so far *)
 Definition avail (g : dsg) (W : list node) (rem : list node) (opts : list node) : list node :=
   let D := doomed g W in filter (fun o => negb (memN o D) && negb (memN o rem)) opts.
